@@ -40,7 +40,7 @@ impl Property for C02 {
     type Case = Case;
     const ID: &'static str = "C02";
     fn rule() -> &'static str {
-        "cases: 2D/3D polylines (2-200 vertices quick, 400 thorough; long-thin, spirals, dense-then-sparse, lattice paths with self-touching) or meshes (grids with random diagonals, L-shapes, tubes, fans, boxes, octahedra, icospheres, tori, prisms; shuffled numbering; any pose; 2-600 faces; a third rescaled as a whole, queries included, by 2^-30..2^20 as long as every doubled face area stays above 1e-15) with 10-40 query points constructed on an element, offset from it (1e-6..3 scale), near vertices/creases, or far away; plus a distance cap and an angle for the filtered projections. Oracle: exhaustive scan over all edges/faces in the harness (own point-segment and Ericson point-triangle routines). Non-trivial: >= 8 elements and the optimum is not attained on element 0. Distinct = distinct canonical JSON."
+        "cases: 2D/3D polylines (2-200 vertices quick, 400 thorough; long-thin, spirals, dense-then-sparse, lattice paths with self-touching) or meshes (grids with random diagonals, L-shapes, tubes, fans, boxes, octahedra, icospheres, tori, prisms; shuffled numbering; any pose; 2-600 faces; a third rescaled as a whole, queries included, by 2^-30..2^20 as long as every doubled face area stays above 1e-15) with 10-40 query points constructed on an element, offset from it (1e-6..3 scale), near vertices/creases, or far away; plus a distance cap and an angle (0.05..pi, incl. exactly pi/2 and pi) for the filtered projections. Oracle: exhaustive scan over all edges/faces in the harness (own point-segment and Ericson point-triangle routines). Non-trivial: >= 8 elements and the optimum is not attained on element 0. Distinct = distinct canonical JSON."
     }
     fn cases(t: Tier) -> u32 {
         t.pick(200_000, 1_500_000)
@@ -54,7 +54,7 @@ impl Property for C02 {
         prop_oneof![
             2 => (curve2_spec(2, nmax, -2.0, 2.0, false), prop::collection::vec(cq(), 10..40)).prop_map(|(spec, queries)| Case::Curve2 { spec, queries }),
             1 => (curve3_spec(2, nmax, -2.0, 2.0, false), prop::collection::vec(cq(), 10..40)).prop_map(|(spec, queries)| Case::Curve3 { spec, queries }),
-            3 => (clean_mesh(prop_oneof![3 => open_kind(gmax), 2 => closed_kind(2)].boxed(), 10.0), prop::bool::weighted(0.2), prop::collection::vec(query(), 10..40), logu(-2.0, 0.5), unif(0.05, PI / 2.0), iso3(3.0), prop_oneof![2 => Just(0i32), 1 => -30i32..=20])
+            3 => (clean_mesh(prop_oneof![3 => open_kind(gmax), 2 => closed_kind(2)].boxed(), 10.0), prop::bool::weighted(0.2), prop::collection::vec(query(), 10..40), logu(-2.0, 0.5), prop_oneof![4 => unif(0.05, PI / 2.0), 2 => unif(PI / 2.0, PI), 1 => prop::sample::select(vec![PI / 2.0, PI, 3.0])], iso3(3.0), prop_oneof![2 => Just(0i32), 1 => -30i32..=20])
                 .prop_map(|(spec, solid, queries, cap, ang, tf, exp2)| Case::Mesh { spec, solid, queries, cap, ang, tf, exp2 }),
         ]
         .boxed()
